@@ -61,13 +61,25 @@ def collision(WG, grid, parts, basisN, rng):
     return ca
 
 
-def solver(WG, M, N, P, bM, bN, deriv, bg, seed):
+def solver(WG, M, N, P, bM, bN, deriv, bg, seed, shared=None):
+    """shared: a dict in which ONE BoltzmannBackground object per job is kept and handed to every solver of that job (the natural
+    way to compare discretisations of one background); the caller's object must come out of setBackground as it went in"""
     rng = np.random.default_rng(seed)
     grid = grid_of(WG, M, N)
     parts = particles(WG, P)
     bs = WG.BoltzmannSolver(grid, bM, bN, deriv)
     bs.updateParticleList(parts)
-    bs.setBackground(background(WG, grid, bg))
+    if shared is None:
+        bs.setBackground(background(WG, grid, bg))
+    else:
+        if "bg" not in shared:
+            shared["bg"] = background(WG, grid, bg)
+            shared["copy"] = (shared["bg"].velocityWall if hasattr(shared["bg"], "velocityWall") else None, np.array(shared["bg"].velocityProfile, copy=True),
+                              np.array(shared["bg"].temperatureProfile, copy=True), np.array(shared["bg"].fieldProfiles, copy=True))
+        bs.setBackground(shared["bg"])
+        b = shared["bg"]
+        shared["untouched"] = bool(shared.get("untouched", True) and np.array_equal(b.velocityProfile, shared["copy"][1]) and np.array_equal(b.temperatureProfile, shared["copy"][2])
+                                   and np.array_equal(b.fieldProfiles, shared["copy"][3]) and bs.background is not b)
     bs.setCollisionArray(collision(WG, grid, parts, bN, rng))
     return bs, grid, parts
 
@@ -135,8 +147,9 @@ def job_basis(WG, job, seed):
     M, N, P, bg = job["M"], job["N"], job["P"], job["bg"]
     ev = {"e": "basis", "M": M, "N": N, "P": P, "bg": bg, "cmp": []}
     ref = None
+    shared = {}
     for bM, bN in (("Cardinal", "Cardinal"), ("Cardinal", "Chebyshev"), ("Chebyshev", "Cardinal"), ("Chebyshev", "Chebyshev")):
-        bs, grid, parts = solver(WG, M, N, P, bM, bN, "Spectral", bg, seed)
+        bs, grid, parts = solver(WG, M, N, P, bM, bN, "Spectral", bg, seed, shared=shared)
         res = bs.getDeltas()
         f = to_cardinal(res.deltaF, M, N, bM, bN)
         D = deltas_array(res)
@@ -145,6 +158,7 @@ def job_basis(WG, job, seed):
             continue
         ev["cmp"].append({"bM": bM, "bN": bN, "dF": quant.reldigits(f, ref[0]), "dDeltas": quant.reldigits(D, ref[1]),
                           "dTrunc": quant.reldigits(res.truncationError, ref[2])})
+    ev["bgUntouched"] = bool(shared.get("untouched", False))
     return ev
 
 
